@@ -1033,6 +1033,7 @@ std::string sqf::parser::preprocessor::impl_default::instance::parse_file(::sqf:
                     {
                         sstream << "\n";
                     }
+                    fileinfo.swallowed_newlines = 0;
                     break;
                 }
             }
@@ -1092,6 +1093,15 @@ std::string sqf::parser::preprocessor::impl_default::instance::parse_file(::sqf:
                     wordstream << c;
                 was_new_line = false;
             } break;
+        }
+        if (c == '\n')
+        {
+            // a code line continued with backslash-newline was joined by the reader: give the lines back at its end,
+            // so that everything after it keeps its line number
+            for (; fileinfo.swallowed_newlines > 0; fileinfo.swallowed_newlines--)
+            {
+                sstream << '\n';
+            }
         }
     }
 
